@@ -89,8 +89,8 @@ func TestVerifC18(t *testing.T) {
 		"every allocation that returned is recorded by the goroutine that made it; the judgement is made after all goroutines have finished",
 		"a panic out of Alloc (e.g. 'too many retries') is the loud failure the statement allows: counted, not a violation")
 	defer rep.Finish()
-	runs := vk.N(400, 24000)
-	perRun := 8000          // allocations per run, or
+	runs := vk.N(400, 16000)
+	perRun := 8000           // allocations per run, or
 	const volume = 256 << 10 // bytes of storage per run, whichever comes first (race-build memory is slow)
 	oldProcs := runtime.GOMAXPROCS(0)
 	defer runtime.GOMAXPROCS(oldProcs)
